@@ -1,5 +1,6 @@
 import AlgoVerif.Model.C10
 import AlgoVerif.Model.C10Ext
+import AlgoVerif.Model.C10Edit
 import AlgoVerif.Model.C08
 /-!
 Line-protocol component for C10 and C12 (shared; `Driver/C12.lean` delegates here).
@@ -253,143 +254,205 @@ def mkSt (raw : SGrammar) : St :=
   { g := g, valid := valid, memo := [], an := an,
     fi := if valid then an.map (·.first) else computeFirstP g IterOrder.canon }
 
-def runQuery (st : St) (line : String) : String × St :=
+/-- an object the case keeps (`keep KIND NAME`): for `first`, `follow`, `table` the state it was made from (its own
+memo table for `first`); a `parser` keeps nothing (it reads the grammar object at every `Parse`) -/
+structure Kept where
+  kind : String
+  st : St
+
+/-- one query.  `st` is what is computed on (grammar, analyses, memo table), `gw` the grammar as it is NOW: words are
+read and names are printed by its declarations (for a query to a kept object `st` is the kept state). -/
+def runOn (st : St) (gw : SGrammar) (gate : Bool) (cmd0 : String) (args : List String) : String × St :=
   let g := st.g
   let o : IterOrder String String := IterOrder.canon
+  let forced := cmd0.startsWith "!"
+  let cmd := if forced then (cmd0.drop 1).toString else cmd0
+  if gate && !st.valid && !forced then ("ok invalid", st) else
+  let an := st.an
+  let firstQ (xs : List String) (caught : Bool) : String × St :=
+    match st.fi with
+    | .ok fi =>
+      let r := firstCall g fi st.memo (xs.map (toSym gw))
+      ((match r.1 with
+        | .ok f => showTE gw f
+        | .panic => if caught then "ok panicked" else "panic"
+        | .diverge => "hang"), { st with memo := r.2 })
+    | .panic => ("panic", st)
+    | .diverge => ("hang", st)
+  match cmd, args with
+  | "nullable", [] =>
+    (showOutcome (fun l => "ok " ++ showSet (l.map encName)) (if st.valid then nullable g o else nullableP g o), st)
+  | "first", xs => firstQ xs false
+  -- the strings handed over in one buffer that the caller writes the next string into: the closure keeps a copy
+  | "firstbuf", xs => firstQ xs false
+  | "tryfirst", xs => firstQ xs true
+  | "follow", [A] =>
+    (showOutcome id (an.bind fun an =>
+      let A := decN A
+      if g.nonterms.contains A then
+        let f := an.follow A
+        Outcome.ok s!"ok {showSet (f.terms.map (encT gw))} end={showBool f.endm}"
+      else Outcome.panic), st)
+  | "ll1", [] =>
+    (showOutcome id (an.map fun an =>
+      let errs := ll1Errors g (firstStr an.first) an.follow
+      if errs.isEmpty then "ok true"
+      else s!"ok false [{"; ".intercalate (sortDedup (errs.map (showLL1Err gw)))}]"), st)
+  | "table", [] => (showOutcome id (an.map fun an => showTable g an), st)
+  | "cell", [A, a] =>
+    (showOutcome id (an.map fun an =>
+      let t := buildTable (firstStr an.first) an.follow g.prods (tableRows g)
+      let c := cellInfo t (decN A) (if a = "$" then none else some (decT a))
+      s!"ok empty={showBool c.1} sync={showBool c.2.1} prod={match c.2.2 with
+        | some p => prodKey gw p
+        | none => "-"}"), st)
+  | "parse", w =>
+    (showOutcome id (an.bind fun an =>
+      (parseWith g an parseFuel (w.map decT)).map fun r =>
+        match r with
+        | .tableError => "ok table-error"
+        | .done (.reject why) => "ok reject " ++ showReject why
+        | .done (.accept evs) => ("ok accept " ++ "; ".intercalate ((prodsOf evs).map (prodKey g)))), st)
+  | "parse0", w =>
+    (showOutcome id (an.bind fun an =>
+      (parseWith g an parseFuel (w.map decT)).map fun r =>
+        match r with
+        | .tableError => "ok table-error"
+        | .done (.reject why) => "ok reject " ++ showReject why
+        | .done (.accept _) => "ok accept"), st)
+  | "parsef", l :: t :: p :: ":" :: w =>
+    (showOutcome id (an.bind fun an =>
+      (parseWithF g an (faultArg l) (faultArg t) (faultArg p) parseFuel (w.map decT)).map fun r =>
+        match r with
+        | .tableError => "ok table-error"
+        | .done evs e => s!"ok {showEnding e} {showEvents g evs}"), st)
+  | "astf", l :: ":" :: w =>
+    (showOutcome id (an.bind fun an =>
+      (parseWithF g an (faultArg l) none none parseFuel (w.map decT)).bind fun r =>
+        match r with
+        | .tableError => Outcome.ok "ok table-error"
+        | .done evs .accept =>
+          (buildASTStack g.start evs).map fun t =>
+            s!"ok {showTree g t} yield=[{" ".intercalate (t.yield.map (encT g))}]"
+        | .done _ e => Outcome.ok ("ok " ++ showEnding e)), st)
+  | "ast", w =>
+    (showOutcome id (an.bind fun an =>
+      (parseWith g an parseFuel (w.map decT)).bind fun r =>
+        match r with
+        | .tableError => Outcome.ok "ok table-error"
+        | .done (.reject why) => Outcome.ok ("ok reject " ++ showReject why)
+        | .done (.accept evs) =>
+          (buildASTStack g.start evs).map fun t =>
+            s!"ok {showTree g t} yield=[{" ".intercalate (t.yield.map (encT g))}]"), st)
+  | _, _ => ("bad-op", st)
+
+/-- the kind of kept object a query goes to -/
+def keptKindOf (cmd : String) : String :=
+  if cmd = "first" || cmd = "tryfirst" || cmd = "firstbuf" then "first"
+  else if cmd = "follow" then "follow"
+  else if cmd = "cell" then "table"
+  else if cmd = "parse" || cmd = "ast" || cmd = "parse0" || cmd = "parsef" || cmd = "astf" then "parser"
+  else ""
+
+abbrev Pool := List (String × Kept)
+
+def Pool.set (p : Pool) (name : String) (k : Kept) : Pool := (name, k) :: p.filter (·.1 ≠ name)
+
+def runQuery (st : St) (pool : Pool) (line : String) : String × St × Pool :=
   match words line with
-  | ["unchanged"] => ("ok true", st)
-  | ["verify"] => (showVerify g, st)
+  | ["unchanged"] => ("ok true", st, pool)
+  | ["verify"] => (showVerify st.g, st, pool)
+  | "with" :: _ :: ["unchanged"] => ("ok true", st, pool)
+  | "with" :: _ :: ["verify"] => (showVerify st.g, st, pool)
+  | "with" :: name :: cmd0 :: args =>
+    let cmd := if cmd0.startsWith "!" then (cmd0.drop 1).toString else cmd0
+    match pool.lookup name with
+    | none => ("ok none", st, pool)
+    | some k =>
+      if keptKindOf cmd = "" || k.kind ≠ keptKindOf cmd then ("ok none", st, pool)
+      else if k.kind = "parser" then
+        -- the parser reads the caller's grammar object at every Parse: the grammar as it is now
+        let r := runOn st st.g true cmd0 args
+        (r.1, r.2, pool)
+      else
+        -- a FIRST closure, a FOLLOW function, a table: made from the grammar as it was, never looking at it again
+        let r := runOn k.st st.g false cmd0 args
+        (r.1, st, pool.set name { k with st := r.2 })
   | cmd0 :: args =>
-    let forced := cmd0.startsWith "!"
-    let cmd := if forced then (cmd0.drop 1).toString else cmd0
-    if !st.valid && !forced then ("ok invalid", st) else
-    let an := st.an
-    match cmd, args with
-    | "nullable", [] =>
-      (showOutcome (fun l => "ok " ++ showSet (l.map encName)) (if st.valid then nullable g o else nullableP g o), st)
-    | "first", xs =>
-      match st.fi with
-      | .ok fi =>
-        let r := firstCall g fi st.memo (xs.map (toSym g))
-        (showOutcome (showTE g) r.1, { st with memo := r.2 })
-      | .panic => ("panic", st)
-      | .diverge => ("hang", st)
-    | "tryfirst", xs =>
-      match st.fi with
-      | .ok fi =>
-        let r := firstCall g fi st.memo (xs.map (toSym g))
-        ((match r.1 with
-          | .ok f => showTE g f
-          | .panic => "ok panicked"
-          | .diverge => "hang"), { st with memo := r.2 })
-      | .panic => ("panic", st)
-      | .diverge => ("hang", st)
-    | "follow", [A] =>
-      (showOutcome id (an.bind fun an =>
-        let A := decN A
-        if g.nonterms.contains A then
-          let f := an.follow A
-          Outcome.ok s!"ok {showSet (f.terms.map (encT g))} end={showBool f.endm}"
-        else Outcome.panic), st)
-    | "ll1", [] =>
-      (showOutcome id (an.map fun an =>
-        let errs := ll1Errors g (firstStr an.first) an.follow
-        if errs.isEmpty then "ok true"
-        else s!"ok false [{"; ".intercalate (sortDedup (errs.map (showLL1Err g)))}]"), st)
-    | "table", [] => (showOutcome id (an.map fun an => showTable g an), st)
-    | "cell", [A, a] =>
-      (showOutcome id (an.map fun an =>
-        let t := buildTable (firstStr an.first) an.follow g.prods (tableRows g)
-        let c := cellInfo t (decN A) (if a = "$" then none else some (decT a))
-        s!"ok empty={showBool c.1} sync={showBool c.2.1} prod={match c.2.2 with
-          | some p => prodKey g p
-          | none => "-"}"), st)
-    | "parse", w =>
-      (showOutcome id (an.bind fun an =>
-        (parseWith g an parseFuel (w.map decT)).map fun r =>
-          match r with
-          | .tableError => "ok table-error"
-          | .done (.reject why) => "ok reject " ++ showReject why
-          | .done (.accept evs) => ("ok accept " ++ "; ".intercalate ((prodsOf evs).map (prodKey g)))), st)
-    | "parse0", w =>
-      (showOutcome id (an.bind fun an =>
-        (parseWith g an parseFuel (w.map decT)).map fun r =>
-          match r with
-          | .tableError => "ok table-error"
-          | .done (.reject why) => "ok reject " ++ showReject why
-          | .done (.accept _) => "ok accept"), st)
-    | "parsef", l :: t :: p :: ":" :: w =>
-      (showOutcome id (an.bind fun an =>
-        (parseWithF g an (faultArg l) (faultArg t) (faultArg p) parseFuel (w.map decT)).map fun r =>
-          match r with
-          | .tableError => "ok table-error"
-          | .done evs e => s!"ok {showEnding e} {showEvents g evs}"), st)
-    | "astf", l :: ":" :: w =>
-      (showOutcome id (an.bind fun an =>
-        (parseWithF g an (faultArg l) none none parseFuel (w.map decT)).bind fun r =>
-          match r with
-          | .tableError => Outcome.ok "ok table-error"
-          | .done evs .accept =>
-            (buildASTStack g.start evs).map fun t =>
-              s!"ok {showTree g t} yield=[{" ".intercalate (t.yield.map (encT g))}]"
-          | .done _ e => Outcome.ok ("ok " ++ showEnding e)), st)
-    | "ast", w =>
-      (showOutcome id (an.bind fun an =>
-        (parseWith g an parseFuel (w.map decT)).bind fun r =>
-          match r with
-          | .tableError => Outcome.ok "ok table-error"
-          | .done (.reject why) => Outcome.ok ("ok reject " ++ showReject why)
-          | .done (.accept evs) =>
-            (buildASTStack g.start evs).map fun t =>
-              s!"ok {showTree g t} yield=[{" ".intercalate (t.yield.map (encT g))}]"), st)
-    | _, _ => ("bad-op", st)
-  | [] => ("bad-op", st)
+    let cmd := if cmd0.startsWith "!" then (cmd0.drop 1).toString else cmd0
+    if cmd = "keep" then
+      if !st.valid then ("ok invalid", st, pool) else
+      match args with
+      | [kind, name] =>
+        if kind = "first" || kind = "follow" || kind = "table" || kind = "parser" then
+          ("ok", st, pool.set name { kind := kind, st := { st with memo := [] } })
+        else ("bad-op", st, pool)
+      | _ => ("bad-op", st, pool)
+    else
+      let r := runOn st st.g true cmd0 args
+      (r.1, r.2, pool)
+  | [] => ("bad-op", st, pool)
 
-/-- `unprod H : body` -/
-def parseUnprod (g : SGrammar) (line : String) : Option SProd :=
+/-- a description line as the edits it makes (`Model/C10Edit.lean`); `none`: not a description line.  A body word is a
+non-terminal iff it carries `^` or names a non-terminal declared at that moment. -/
+def parseDesc (g : SGrammar) (line : String) : Option (List (Edit String String)) :=
+  let body (ws : List String) : List SSym := ws.map (toSym g)
   match words line with
-  | "unprod" :: h :: ":" :: body => some { head := decN h, body := body.map (toSym g) }
+  | "terms" :: ts => some (ts.map fun t => .addTerm (decT t))
+  | "unterm" :: ts => some (ts.map fun t => .removeTerm (decT t))
+  | "nonterms" :: ns => some (ns.map fun n => .addNonterm (decN n))
+  | "unnonterm" :: ns => some (ns.map fun n => .removeNonterm (decN n))
+  | ["start", s] => some [.setStart (decN s)]
+  | "prod" :: h :: ":" :: b => some [.addProd { head := decN h, body := body b }]
+  | "unprod" :: h :: ":" :: b => some [.removeProd { head := decN h, body := body b }]
+  | "unprodall" :: hs => some (hs.map fun h => .removeAll (decN h))
+  | "getadd" :: h :: ":" :: b => some [.getAdd { head := decN h, body := body b }]
+  | "yieldadd" :: h :: ":" :: b => some [.getAdd { head := decN h, body := body b }]
+  | "getremove" :: h :: ":" :: b => some [.getRemove { head := decN h, body := body b }]
+  | "yieldremove" :: h :: ":" :: b => some [.getRemove { head := decN h, body := body b }]
+  | "setbody" :: h :: ":" :: rest =>
+    if rest.contains "=>" then
+      let old := rest.takeWhile (· ≠ "=>")
+      let new := (rest.dropWhile (· ≠ "=>")).drop 1
+      some [.setBody { head := decN h, body := body old } (body new)]
+    else none
+  | "setsym" :: h :: i :: x :: ":" :: b =>
+    let old := body b
+    match i.toNat? with
+    | some k => if k < old.length then some [.setBody { head := decN h, body := old } (old.set k (toSym g x))] else some []
+    | none => some []
+  | ["refresh", _] => some [.refresh]
   | _ => none
-
-/-- fold one description line into the grammar (`Gram.parseGrammarLine` with the words decoded; a body word is a
-non-terminal iff it carries `^` or names a non-terminal listed so far) -/
-def parseDesc (g : SGrammar) (line : String) : SGrammar × Bool :=
-  match words line with
-  | "terms" :: ts => ({ g with terms := g.terms ++ ts.map decT }, true)
-  | "nonterms" :: ns => ({ g with nonterms := g.nonterms ++ ns.map decN }, true)
-  | ["start", s] => ({ g with start := decN s }, true)
-  | "prod" :: h :: ":" :: body => ({ g with prods := g.prods ++ [{ head := decN h, body := body.map (toSym g) }] }, true)
-  | _ => (g, false)
 
 def runCase (_hdr : List String) (ops : List String) : List String := Id.run do
   let mut raw : SGrammar := SGrammar.empty
-  -- the normalised grammar with its validity and analyses, recomputed after a description line
+  -- the grammar with its validity and analyses, recomputed after a description line
   let mut cur : Option St := none
+  let mut pool : Pool := []
   let mut out : Array String := #[]
   let mut dead := false
   for l in ops do
     if dead then
       out := out.push "skip"
     else
-    let (raw', isDesc) := parseDesc raw l
-    if isDesc then
-      raw := raw'
+    match parseDesc raw l with
+    | some es =>
+      raw := applyEdits raw es
       cur := none
+      -- a table holds the `*Production` values of its grammar, an edit through such a pointer would show in it: kept
+      -- tables end at such an edit
+      if (words l).head? = some "setbody" || (words l).head? = some "setsym" then
+        pool := pool.filter (·.2.kind ≠ "table")
       out := out.push "ok"
-    else
-      match parseUnprod raw l with
-      | some p =>
-        raw := { raw with prods := raw.prods.filter (· ≠ p) }
-        cur := none
-        out := out.push "ok"
-      | none =>
-        let st := match cur with
-          | some st => st
-          | none => mkSt raw
-        let r := runQuery st l
-        cur := some r.2
-        out := out.push r.1
-        if r.1 = "panic" || r.1 = "hang" then dead := true
+    | none =>
+      let st := match cur with
+        | some st => st
+        | none => mkSt raw
+      let r := runQuery st pool l
+      cur := some r.2.1
+      pool := r.2.2
+      out := out.push r.1
+      if r.1 = "panic" || r.1 = "hang" then dead := true
   return out.toList
 
 end AlgoVerif.C10.Driver
